@@ -16,7 +16,8 @@ from model import (gen_addr, mask_value, addr_value, groups_to_text, conf_quote,
 WORDCH = "abcdefghijklmnopqrstuvwxyzABCDEFGHIJKLMNOPQRSTUVWXYZ0123456789-_[]{}|^`"
 HOSTCH = "abcdefghijklmnopqrstuvwxyz0123456789-"
 SVC_POOL = ["login.example.org", "Login2.Example.NET", "bot.example.org", "combo.example.org",
-            "ipr.example.org", "x.y", "drones-r-us.example.com", "x.y.z", "login.example"]
+            "ipr.example.org", "x.y", "drones-r-us.example.com", "x.y.z", "login.example",
+            "s10.example.org", "s11.example.org", "s12.example.org", "s13.example.org", "s14.example.org"]
 FAULT_KINDS = ["seg", "rd_eagain", "rd_eintr", "xr_lost", "xr_dup", "xr_stale", "xr_forged",
                "xr_unknown_svc", "xr_not_awaited", "xr_unlinked", "xr_malformed", "xr_notfinal",
                "cli_disconnect", "cli_reannounce_live", "cli_registered_early", "cli_hurry",
@@ -39,6 +40,8 @@ def gen_cfg(rnd, opts=None):
     cfg = {"modules": modules, "services": {}, "rules": {}, "timeout": 0, "logs": []}
     if modules != "iauth":
         nsvc = opts.get("nsvc", rnd.choice([0, 1, 1, 2, 2, 3, 4]))
+        if "nsvc" not in opts and rnd.random() < 0.05:
+            nsvc = rnd.randint(5, 13)       # service indices beyond one byte of the per-client masks
         nsvc = max(nsvc, opts.get("min_svc", 0))
         names = rnd.sample(SVC_POOL, nsvc)
         for n in names:
